@@ -292,7 +292,9 @@ func (b *Built) inner(id int, p parsley.Parser) parser.Func {
 		if a > m.MaxActive {
 			m.MaxActive = a
 		}
-		rem := ctx.Reader().Remaining(pos)
+		// the bytes remaining are computed from what the harness knows about the file (its length and base offset),
+		// not asked from the reader under test
+		rem := InputLen - (int(pos) - Base)
 		if rem < 0 {
 			rem = 0
 		}
@@ -351,14 +353,18 @@ func (b *Built) Run(ctx *parsley.Context, p parsley.Parser, pos parsley.Pos) (o 
 //	1: second file of the set, after a 3-byte file; reader created after the file was added
 //	2: second file of the set, after a 3-byte file; reader created BEFORE the file is added (the order
 //	   examples/json/json/parser_test.go uses): anything the reader copied from the file at construction is stale
+//	3: the file is first registered behind a 3-byte file and the reader created, THEN the same file is registered as
+//	   the only file of a fresh set (its base offset changes back to 1) and parsed through that set with the old reader
 var (
 	Placement int
 	Base      = 1
+	InputLen  int // length of the input of the most recent NewContext
 )
 
 // NewContext makes a context for input w according to Placement.
 func NewContext(w []byte) (*parsley.Context, *text.Reader, *text.File) {
 	f := text.NewFile("f", w)
+	InputLen = len(w)
 	switch Placement {
 	case 1:
 		fs := parsley.NewFileSet(text.NewFile("pre", []byte("xyz")), f)
@@ -370,6 +376,14 @@ func NewContext(w []byte) (*parsley.Context, *text.Reader, *text.File) {
 		fs := parsley.NewFileSet(text.NewFile("pre", []byte("xyz")))
 		fs.AddFile(f)
 		Base = int(r.Pos(0))
+		return parsley.NewContext(fs, r), r, f
+	}
+	if Placement == 3 {
+		old := parsley.NewFileSet(text.NewFile("pre", []byte("xyz")))
+		old.AddFile(f)
+		r := text.NewReader(f)
+		fs := parsley.NewFileSet(f)
+		Base = 1
 		return parsley.NewContext(fs, r), r, f
 	}
 	fs := parsley.NewFileSet(f)
